@@ -131,6 +131,7 @@ def sched_c11(cfgname, faults, nrec, cls="c11"):
     fid = "-".join("%d.%d.%s" % (f["r"], f["k"], f["res"]) for f in faults) or "none"
     return {"id": "%s-%s" % (cfgname, fid), "class": cls, "cfg": CFGS[cfgname], "steps": steps,
             "sig": "kind=%s fault=%s" % (cfgname, "+".join(point(f) for f in faults) or "none"),
+            "expect": [[f["r"], f["k"], f["verb"], f["kind"], f["res"]] for f in faults],
             "nfaults": len(faults)}
 
 
@@ -403,17 +404,22 @@ def validate(ctx, trace, prefix, chunk=1200, workers=None):
 
 
 def scenario_sig(scen):
-    """signature of a scenario: the one given by the schedule; for random schedules the faults that really fired"""
+    """signature of a scenario: the one given by the schedule (fault points named by the model's program counter) when the
+    faults hit the calls the model expected; otherwise (random schedules, or Go map order put another group first) the
+    faults that really fired."""
     sc = scen[0]
-    if sc.get("class") != "random":
-        return sc.get("sig")
     name = CFG_NAME.get(cfg_key(sc["cfg"]), "?")
-    fs, rec = [], {}
+    fs, fired, rec = [], [], {}
     for ev in scen[1:]:
         if ev["ev"] == "Start" and ev["t"] == "rec":
             rec[ev["a"]] = rec.get(ev["a"], 0) + 1
         if ev["ev"] == "Call" and ev["res"] != "ok":
+            fired.append([rec.get(ev["a"], 0), ev["k"], ev["verb"], ev["kind"], ev["res"]])
             fs.append("%s@%s/%s#p%dr%dk%d" % ({"fail": "Fail", "crash": "Crash"}[ev["res"]], ev["verb"], ev["kind"], ev["a"], rec.get(ev["a"], 0), ev["k"]))
+    if sc.get("class") != "random":
+        expect = json.loads(sc["sched"]).get("expect")
+        if expect is None or expect == fired:
+            return sc.get("sig")
     evs = [ev["e"] + "(%d)" % ev["p"] for ev in scen[1:] if ev["ev"] == "Start" and ev["t"] == "hdl"]
     return "kind=%s fault=%s%s" % (name, "+".join(fs) or "none", (" ev=" + ",".join(evs)) if evs else "")
 
